@@ -26,6 +26,7 @@ def check(chk):
     _dom5(chk)
     _pair2(chk)
     _keyed_waits(chk)
+    _start_wait_taken_only_when_starting(chk)
     # relay: what earlier handlers relayed reaches later handlers only through the per-handler merge of the *current* kwargs
     from sa.rules.c01 import _merge_and_condition
     _merge_and_condition(chk, chk.repo.func(EV, EM + "._run_handlers"))
@@ -414,12 +415,43 @@ def _keyed_waits(chk):
     stop_loop_selection(chk, "PAIR-2", "ball", "one already stopping still has to finish")
 
 
-def _pair2(chk):
+def _start_wait_taken_only_when_starting(chk):
+    """PAIR-2w: Mode.start parks the queue of the event that started it (use_wait_queue) and waits on it; the wait is released when the
+    mode has stopped.  A request that is *refused* (no game, already active, already starting) must leave that queue alone: the wait
+    it would take is released by nobody (the running cycle releases the queue it parked last), and the parked queue of the cycle that
+    is running would be overwritten.  So park + wait come after every refusal exit: they are dominated by `self._starting = True`."""
+    repo = chk.repo
+    f = repo.func("mpf/core/mode.py", "Mode.start")
+    chk.analysed(f)
+    cfg = f.cfg()
+    mark = [n for n in cfg.nodes if n.kind == "stmt" and isinstance(n.ast, ast.Assign) and src(n.ast.targets[0]) == "self._starting" and src(n.ast.value) == "True"]
+    park = [n for n in cfg.nodes if n.kind == "stmt" and isinstance(n.ast, ast.Assign) and src(n.ast.targets[0]) == "self._mode_start_wait_queue"]
+    wtc = [(n, c) for n, c in cfg.calls_named("wait") if "queue" in src(c.func.value)]
+    wt = [n for n, _ in wtc]
+    chk.need(len(mark) == 1 and park and wt, "PAIR-2", "Mode.start marks itself starting, parks the start queue and waits on it", f)
+    rets = [n for n in cfg.nodes if n.kind == "stmt" and isinstance(n.ast, ast.Return)]
+    refusals = [r for r in rets if not cfg.dominates(mark[0].id, r.id)]
+    for n in park + wt:
+        ok = cfg.dominates(mark[0].id, n.id) and all(cfg.path_avoiding(n.id, [r.id], [], ignore_exc=True) is None for r in refusals)
+        chk.ob("PAIR-2", "Mode.start touches the start queue only once the request is accepted (after every refusal exit)", ok, f.where(n.ast),
+               detail="a refused start that waits on its queue is never released, and it overwrites the queue the running cycle has to release",
+               construct=f.ident, text="start queue touched before acceptance: " + n.text(40))
+    chk.ob("PAIR-2", "refusal exits of Mode.start examined", len(refusals) >= 3, f.where(), detail=str(len(refusals)), nontrivial=False)
+    g = cfg.guards_at(wt[0].id)
+    ok = g.get("'queue' in kwargs") is True and g.get("self.config['mode']['use_wait_queue']") is True
+    chk.ob("PAIR-2", "the wait is taken exactly for use_wait_queue modes started by a queue event", ok, f.where(wt[0].ast), construct=f.ident, text="start wait guard")
+    ok = src(park[0].ast.value).replace('"', "'") == "kwargs['queue']" and src(wtc[0][1].func.value) == "self._mode_start_wait_queue" and cfg.dominates(park[0].id, wt[0].id)
+    chk.ob("PAIR-2", "the queue waited on is the one that was parked: the queue of the starting event", ok, f.where(wt[0].ast), construct=f.ident, text="start wait object")
+
+
+def _pair2(chk, only=None):
     repo = chk.repo
     idx = get_index(repo)
     n_sites = 0
     for u in idx.uses("wait"):
         if u.call is None or u.func is None or u.call.args or u.call.keywords:
+            continue
+        if only is not None and u.relpath != only:
             continue
         rt = u.recv_text
         if not _queue_like(rt):
@@ -528,7 +560,7 @@ def _pair2(chk):
                         chk.ob("PAIR-2", "%s forgets the parked queue self.%s once it cleared it" % (m.qualname, fld), bool(resets) and w is None,
                                m.where(x), detail="the guard `if self.%s:` stays true: the next pass clears the released QueuedEvent again (AssertionError 'Not locked')" % fld,
                                construct=m.ident, text="parked queue self.%s not reset after clear" % fld)
-    chk.floor("PAIR-2", 12)
+    chk.floor("PAIR-2", 12 if only is None else 2)
     # the two counting waits: nothing-to-wait-for branch clears immediately
     f = repo.func("mpf/core/mode_controller.py", "ModeController._ball_ending")
     chk.analysed(f)
@@ -753,6 +785,7 @@ def battery():
         M("game mode asked to stop before it is noted as awaited", G, "                self._stopping_modes.append(mode)\n                mode.stop(callback=partial(self._game_mode_stopped, mode=mode))", "                mode.stop(callback=partial(self._game_mode_stopped, mode=mode))\n                self._stopping_modes.append(mode)", "PAIR-2"),
         M("queue event aborted by a handler returning False", E, "            handler.callback(queue=queue, **merged_kwargs)\n", "            result = handler.callback(queue=queue, **merged_kwargs)\n            if result is False:\n                break\n", "DOM-4"),
         M("merge fast path decided by a stale flag", E, "        result = None\n        for handler in self.registered_handlers[event][:]:", "        result = None\n        has_kwargs = bool(kwargs)\n        for handler in self.registered_handlers[event][:]:", "FLOW-1", also=[(E, "            if handler.kwargs and kwargs:", "            if handler.kwargs and has_kwargs:")]),
+        M("refused start waits on its queue", "mpf/core/mode.py", "        if self.config['mode']['game_mode'] and not (self.machine.game and self.player):", "        if self.config['mode']['use_wait_queue'] and 'queue' in kwargs:\n            self._mode_start_wait_queue = kwargs['queue']\n            self._mode_start_wait_queue.wait()\n\n        if self.config['mode']['game_mode'] and not (self.machine.game and self.player):", "PAIR-2"),
     ]
 
 
